@@ -12,6 +12,11 @@ other side, both read by the independent reference decoder vf/ref/dns.py:
                      equal after expanding compression in both for the types whose RDATA is defined to hold names
   opaque_bytes_equal records of types without names in RDATA (A, AAAA, TXT, HINFO, NULL, OPT, DS, HTTPS, unknown, ...): RDATA
                      byte for byte
+  history.*          multi-message histories on one connection (a fixed matrix of shapes on both transports first, then 12% of the
+                     random cases): 1-5 responses per query (AXFR-like series sharing an id, plain duplicates), queries sharing an
+                     id pipelined or sent only after earlier answers arrived (client gated on the replies it received), responses
+                     of different ids interleaved: every response the upstream wrote reaches the client exactly once, in the order
+                     written, content-equal; every query the client sent reaches the upstream exactly once, in order; no close
 """
 from vf import sansio
 from vf.gen import c25_dnsgen as G25
@@ -26,7 +31,9 @@ TECHNIQUE = "runtime monitoring at the wire boundary of the real DNS layer; diff
 BUDGET = {"quick": (2200, 14), "thorough": (200_000, 200)}
 WORKERS = {"quick": 2, "thorough": 16}
 REQUIRED = ["delivered", "decodes", "same_meaning", "opaque_bytes_equal", "dir.query", "dir.response", "transport.udp", "transport.tcp",
-            "with.rdata_compression", "with.opaque_c0", "with.rdata_exotic_literal", "with.rdata_exotic_behind_pointer"]
+            "with.rdata_compression", "with.opaque_c0", "with.rdata_exotic_literal", "with.rdata_exotic_behind_pointer",
+            "history.cases", "history.matrix", "history.random", "multi_response_same_id", "history.id_reused_after_answer",
+            "history.response_delivered", "history.query_delivered"]
 RULE = (
     "case = one client connection (UDP or TCP, TCP streams randomly segmented, random or fifo schedule) carrying 1-3 query/response "
     "exchanges with unique ids; messages are generated from a small zone of names sharing suffixes (LDH, mixed case, underscore, "
@@ -35,14 +42,19 @@ RULE = (
     "name-bearing types (NS CNAME PTR MX SOA SRV NAPTR MINFO RP AFSDB RT PX SIG NXT KX DNAME RRSIG NSEC), A/AAAA/TXT/HINFO/NULL/OPT/DS/"
     "DNSKEY/HTTPS/CAA/unknown types, integer fields and text biased to octets >= 0xC0 (0xC00C, SRV ports 49152+, UTF-8/Latin-1 text); "
     "encoded with owner-name compression and RDATA-name compression for none / the RFC 1035 types / all RFC 3597 well-known types; "
-    "distinct = (transport, direction-merged wire feature set, outcome); non-trivial = some message of the case contains a compression "
+    "history cases: ids per query from a pool of 1-4 (with repetition), 0-5 responses per query written when the same / the last / a random "
+    "later query of the release group arrives, release groups gated on the number of replies the client has received; "
+    "distinct = (transport, direction-merged wire feature set, outcome) resp. (transport, matrix/random, #queries, id repeated, max "
+    "responses per query, #release groups, trigger mode, outcome); non-trivial = some message of the case contains a compression "
     "pointer or an opaque RDATA octet >= 0xC0"
 )
 ASSUMPTIONS = [
     "'as produced by real servers': names inside RDATA are compressed only in the RFC 3597 section 4 well-known types; every name-bearing "
     "type's RDATA follows its RFC layout; names are at most 255 octets",
     "'reads identically' compares names octet for octet (case is preserved data: DNS 0x20 relies on it)",
-    "messages are matched by id; ids are unique within a case",
+    "messages are matched by id; ids are unique within a case (history cases: matched by position in the order written)",
+    "every upstream response whose id a delivered query has used is forwarded, also the 2nd..nth one for that id and after the id was "
+    "reused (what the code does since 075f8e474: only a CLIENT query starts a new flow for an answered id)",
 ]
 LEVEL_TEXT = (
     "Generated conversations are pushed through the real DNSLayer under a seeded scheduler and every forwarded message is compared with "
@@ -247,11 +259,202 @@ def run_case(ctx, opts):
     return sig, nontrivial, sample
 
 
+# ---- multi-message histories on one connection ---------------------------------------------------------------------------------
+# shape = (ids per query, responses per query, release group per query, trigger mode): responses to query j are written by the upstream
+# when it receives query trigger(j) >= j; the client holds back the queries of group g > 0 until it has received need(g) responses.
+HISTORY_MATRIX = [
+    ([7], [1], [0], "self"), ([7], [2], [0], "self"), ([7], [3], [0], "self"), ([7], [5], [0], "self"),  # AXFR-like answer series
+    ([0, 0], [1, 1], [0, 0], "self"), ([0, 0], [1, 1], [0, 0], "last"),  # pipelined queries sharing an id
+    ([0, 0], [1, 1], [0, 1], "self"), ([9, 9], [2, 2], [0, 1], "self"), ([9, 9, 9], [1, 2, 1], [0, 1, 2], "self"),  # id reused after the answer
+    ([1, 2, 3], [2, 2, 1], [0, 0, 0], "last"), ([1, 2, 1, 2], [2, 1, 1, 3], [0, 0, 0, 0], "random"),  # answers interleaved across ids
+    ([5, 5, 5], [2, 2, 2], [0, 0, 0], "self"), ([5, 6, 5], [3, 0, 2], [0, 0, 1], "random"), ([65535, 0, 65535, 0], [1, 4, 0, 2], [0, 0, 1, 1], "random"),
+]
+
+
+def run_history_case(ctx, opts, shape=None, transport=None):
+    r = ctx.rng
+    transport = transport or r.choice(["udp", "tcp"])
+    if shape is None:
+        n = r.choice([1, 2, 2, 3, 4, 6])
+        pool = r.sample(range(65536), r.choice([1, 1, 2, 3])) + ([0] if r.random() < 0.3 else [])
+        ids = [r.choice(pool) for _ in range(n)]
+        counts = [r.choice([0, 1, 1, 1, 2, 2, 3, 5]) for _ in range(n)]
+        groups, g = [], 0
+        for _ in range(n):
+            groups.append(g)
+            if r.random() < 0.35:
+                g += 1
+        groups = [x - groups[0] for x in groups]
+        mode = r.choice(["self", "self", "last", "random"])
+        kind = "random"
+    else:
+        ids, counts, groups, mode = shape
+        n = len(ids)
+        kind = "matrix"
+    zone = G.Zone(r)
+    queries, responses = [], []  # responses[j] = wires of the answers to query j
+    for j in range(n):
+        for _ in range(8):
+            qm, _f = G.realistic_message(r, zone, response=False, mid=ids[j])
+            if qm["questions"]:
+                break
+        qmode = r.choice(COMPRESS_MODES)
+        queries.append(G.encode(qm, compress_owner=qmode != "none"))
+        ws = []
+        for _k in range(counts[j]):
+            rm, _f = G.realistic_message(r, zone, response=True, mid=ids[j], question=qm["questions"][0])
+            rmode = r.choice(COMPRESS_MODES)
+            w = G.encode(rm, compress_owner=rmode != "none", rdata_types={"none": frozenset(), "owner": frozenset(), "rfc1035": R.COMPRESSIBLE_RDATA, "rfc3597": G.RFC3597_NAME_TYPES}[rmode])
+            if len(w) > 20000:
+                w = G.encode({**rm, "answers": rm["answers"][:2], "authorities": [], "additionals": []}, compress_owner=True)
+            ws.append(w)
+        if counts[j] >= 2 and r.random() < 0.3:
+            ws[-1] = ws[0]  # a plain duplicate
+        responses.append(ws)
+    # when is each response written?  trigger[j][k] = index of the query whose arrival at the upstream releases it
+    last_of_group = {g: max(j for j in range(n) if groups[j] == g) for g in set(groups)}
+    trigger = []
+    for j in range(n):
+        hi = last_of_group[groups[j]]  # never wait for a query the client holds back
+        trigger.append([j if mode == "self" else hi if mode == "last" else r.randint(j, hi) for _ in range(counts[j])])
+    emit_at = {t: [] for t in range(n)}
+    for j in range(n):
+        for k, t in enumerate(trigger[j]):
+            emit_at[t].append((j, k))
+    for t in emit_at:
+        if mode != "self":
+            r.shuffle(emit_at[t])  # interleaves the ids; the delivery order must follow the order written
+    avail_before_group = {}
+    for g in sorted(set(groups)):
+        avail_before_group[g] = sum(len(emit_at[t]) for t in range(n) if groups[t] < g)
+    need = {g: (r.randint(0, avail_before_group[g]) if r.random() < 0.5 else avail_before_group[g]) for g in avail_before_group}
+    sent_up = []  # (j, k, wire) in the order written
+
+    def responder(kq, m, peer):
+        acts = []
+        if kq < n:
+            for j, k in emit_at[kq]:
+                sent_up.append((j, k, responses[j][k]))
+                acts.append(responses[j][k])
+        return acts
+
+    ups = []
+
+    def server_factory(drv, conn):
+        p = G.DnsUpstream(transport, responder, r, r.choice(["whole", "random", "split", "bytes"] if sum(len(w) for ws in responses for w in ws) < 3000 else ["whole", "random", "split"]), coalesce=r.random() < 0.7)
+        ups.append(p)
+        return p
+
+    def gate_for(g):
+        k = need[g]
+        return lambda drv: sum(1 for _, c, _d in drv.out_log if c is drv.client) >= k
+
+    segs = []
+    first_seg_of_group = {}
+    for g in sorted(set(groups)):
+        part = [queries[j] for j in range(n) if groups[j] == g]
+        if transport == "udp":
+            ss = list(part)
+        else:
+            stream = b"".join(G.frame(q, "tcp") for q in part)
+            m = r.choice(["whole", "random", "split", "bytes"] if len(stream) < 1200 else ["whole", "random", "split"])
+            ss = cut(stream, r, r.randrange(1, max(2, len(stream))) if m == "split" else m)
+        if g > 0 and ss:
+            ss[0] = (ss[0], gate_for(g))
+        first_seg_of_group[g] = len(segs)
+        segs += ss
+    sched = r.choice(["random", "random", "fifo"])
+    d = G.make_driver(transport, opts, r, server_factory=server_factory, schedule=sched, max_steps=6000)
+    d.attach_client_peer(sansio.ScriptPeer(segs))
+    d.start()
+    d.run()
+    if d.budget_exceeded:
+        d.teardown()
+        ctx.count("inconclusive_cases")
+        return None
+    held_back = len(d.inbox[d.client])
+    up_msgs = [m for p in ups for m in p.messages]
+    down_msgs, down_status, down_rest = G.client_messages(d, transport)
+    closes = [x[2] for x in d.log if x[0] == "cmd" and x[2].startswith("CloseConnection")]
+    d.teardown()
+    ctx.count("history.cases")
+    ctx.count("history." + kind)
+    seen_ids, multi, reused_after = set(), 0, 0
+    for j, k, w in sent_up:
+        if (ids[j], "answered") in seen_ids:
+            multi += 1
+        seen_ids.add((ids[j], "answered"))
+    for j in range(n):
+        if groups[j] > 0 and ids[j] in ids[:j] and need[groups[j]] > 0:
+            reused_after += 1
+    if multi:
+        ctx.count("multi_response_same_id", multi)
+    if reused_after:
+        ctx.count("history.id_reused_after_answer", reused_after)
+    wit = {"kind": "history", "shape": kind, "transport": transport, "schedule": sched, "ids": ids, "responses_per_query": counts, "groups": groups,
+           "trigger": trigger, "need": need, "written_by_upstream": [(j, k) for j, k, _ in sent_up], "queries_held_back": held_back,
+           "delivered_to_upstream": len(up_msgs), "delivered_to_client": len(down_msgs), "closes": closes, "hooks": d.hook_names()[:60],
+           "exceptions": [e[:2] for e in d.exceptions]}
+    outcomes = set()
+    if down_status != "ok" or down_rest or any(p.bad_framing for p in ups):
+        ctx.violation("tcp-framing-of-forwarded-bytes-broken", wit)
+        outcomes.add("framing")
+
+    def sem(b):
+        try:
+            return R.semantic(R.decode(b, allow_trailing=False))
+        except R.DecodeError:
+            return ("undecodable", bytes(b[:40]))
+
+    # every response the upstream wrote is delivered to the client exactly once, in the order written, content-equal
+    ctx.count("history.response_delivered", len(sent_up))
+    exp = [sem(w) for _, _, w in sent_up]
+    got = [sem(m) for m in down_msgs]
+    if got != exp:
+        first = next((i for i, (a, b) in enumerate(zip(exp, got)) if a != b), min(len(exp), len(got)))
+        lost = len(exp) - len(got)
+        same_multiset = sorted(map(repr, exp)) == sorted(map(repr, got))
+        what = "reordered" if same_multiset else "lost" if lost > 0 and got == [e for e in exp if e in got][: len(got)] else "differs"
+        outcomes.add("responses-" + what)
+        j, k = (sent_up[first][0], sent_up[first][1]) if first < len(sent_up) else (None, None)
+        ctx.violation(f"history:responses-{what}", {**wit, "first_difference_at": first, "query_index": j, "response_index": k,
+                                                    "nth_response_for_its_id": (sum(1 for jj, _, _ in sent_up[:first] if ids[jj] == ids[j]) + 1) if j is not None else None,
+                                                    "sent": sent_up[first][2][:300] if first < len(sent_up) else None,
+                                                    "got": down_msgs[first][:300] if first < len(down_msgs) else None})
+    else:
+        outcomes.add("responses-ok")
+    # every query the client sent reaches the upstream exactly once, in order, content-equal
+    # if a gate never opened (only possible when responses were lost) judge the queries of the groups that were released
+    consumed = len(segs) - held_back
+    released = [j for j in range(n) if first_seg_of_group[groups[j]] < consumed]
+    ctx.count("history.query_delivered", len(released))
+    expq = [sem(queries[j]) for j in released]
+    gotq = [sem(m) for m in up_msgs]
+    if gotq != expq and not (held_back and gotq == expq[: len(gotq)]):
+        outcomes.add("queries-differ")
+        first = next((i for i, (a, b) in enumerate(zip(expq, gotq)) if a != b), min(len(expq), len(gotq)))
+        ctx.violation("history:queries-lost-duplicated-or-reordered", {**wit, "first_difference_at": first})
+    else:
+        outcomes.add("queries-ok")
+    if closes:
+        outcomes.add("closed")
+        ctx.violation("history:connection-closed-on-well-formed-traffic", wit)
+    sig = ("history", transport, kind, min(n, 4), len(set(ids)) < n, max(counts) if counts else 0, max(groups), mode, tuple(sorted(outcomes)))
+    return sig, n >= 2 or max(counts) >= 2, {"kind": "history", "transport": transport, "ids": ids, "responses_per_query": counts, "groups": groups,
+                                             "written": [(j, k) for j, k, _ in sent_up], "outcomes": sorted(outcomes)}
+
+
 def run(ctx):
     tctx, _ = sansio.addon_context()
     opts = tctx.options
+    matrix = [(sh, tr) for sh in HISTORY_MATRIX for tr in ("tcp", "udp")]
     for i in ctx.cases():
-        res = ctx.guard(run_case, ctx, opts, what="c26 case")
+        if i < len(matrix):
+            res = ctx.guard(run_history_case, ctx, opts, matrix[i][0], matrix[i][1], what="c26 history matrix case")
+        elif ctx.rng.random() < 0.12:
+            res = ctx.guard(run_history_case, ctx, opts, what="c26 history case")
+        else:
+            res = ctx.guard(run_case, ctx, opts, what="c26 case")
         if res is None:
             ctx.case(("aborted",), False)
             continue
